@@ -220,6 +220,15 @@ ppointer thr_body(ppointer arg) {
   if (i % 3 == 0) p_uthread_exit((pint)(i + 5));
   return (i % 2) ? (ppointer)(psize)(4096 + i) : NULL;   // a function that "simply returned" is joined with 0 whatever it returns
 }
+// a thread that plibsys did not start: p_uthread_current() gives it a handle, and that handle obeys the same reference rule as any other
+// ("stays valid while an explicit reference exists, released exactly once after the last one")
+struct Foreign { PUThread *h = nullptr, *h2 = nullptr; pthread_barrier_t b; };
+void *foreign_body(void *a) {
+  Foreign &f = *(Foreign *)a;
+  f.h = p_uthread_current(); f.h2 = p_uthread_current();
+  pthread_barrier_wait(&f.b); /* main takes (and in one variant already drops) its reference here */ pthread_barrier_wait(&f.b);
+  return NULL;
+}
 Outcome run_threads_case(const Case &c) {
   Outcome o; Shared g; G = &g; g.c = c;
   auto fail = [&](const string &k, const string &m) { if (o.verdict.empty()) { o.verdict = m; o.klass = k; } };
@@ -252,6 +261,25 @@ Outcome run_threads_case(const Case &c) {
     if (g.tls_destroyed != expect_destroy) fail("tls-notifier", string(g.keyfree_round ? "[key reference released while the threads were alive] " : "") + "TLS notifier ran " + std::to_string(g.tls_destroyed.load()) + " times, expected " + std::to_string(expect_destroy));
     if (g.key) p_uthread_local_free(g.key);
     if (g.keyfree_round) pthread_barrier_destroy(&g.bar);
+    // foreign thread round: 0 = reference kept across the thread's exit, 1 = reference dropped while it runs, 2 = no explicit reference
+    {
+      Foreign f; pthread_barrier_init(&f.b, NULL, 2); pthread_t pt;
+      if (pthread_create(&pt, NULL, foreign_body, &f) == 0) {
+        pthread_barrier_wait(&f.b);
+        int variant = r % 3;
+        if (!f.h) fail("current-null", "p_uthread_current returned NULL in a thread not started by plibsys");
+        else if (f.h != f.h2) fail("current-changes", "two p_uthread_current calls of one thread returned different handles");
+        if (f.h && variant <= 1) p_uthread_ref(f.h);
+        if (f.h && variant == 1) p_uthread_unref(f.h);
+        pthread_barrier_wait(&f.b);
+        pthread_join(pt, NULL);
+        // the thread is gone and has dropped its own reference; ours keeps the handle alive until this unref (ASan decides: a handle
+        // released at thread exit makes this a use after free)
+        if (f.h && variant == 0) p_uthread_unref(f.h);
+        vl::stats().klass(variant == 0 ? "foreign_thread_ref_kept_across_exit" : variant == 1 ? "foreign_thread_ref_dropped_before_exit" : "foreign_thread_no_ref");
+      }
+      pthread_barrier_destroy(&f.b);
+    }
   }
   o.nontrivial = c.T >= 2; o.fp = vl::fnv1a(to_text(c)); vl::stats().klass("kind_thr"); G = nullptr;
   return o;
